@@ -474,7 +474,7 @@ fn execute(sc: &Scenario, mode: Mode, path: &std::path::Path, st: &mut St) -> Re
         }
     }
     let n_workers = workers.len();
-    let job = Job { workers };
+    let job = Job { workers, examine: roles.iter().map(|r| *r == "reader").collect() };
     let mut viol: Vec<(String, String)> = Vec::new();
     let trace = match mode {
         Mode::Baton(s) => sched::run_baton(job, s, 20_000),
@@ -500,27 +500,14 @@ fn execute(sc: &Scenario, mode: Mode, path: &std::path::Path, st: &mut St) -> Re
     if trace.inconclusive.is_some() {
         return Ok(Outcome { trace, violations: viol });
     }
-    // a reader blocked although no writer was growing the file
-    for (w, last, lasts) in &trace.blocked {
-        // which lock the reader is about to take after its last point, and who may legitimately hold it:
-        //   begin:before-lock -> map read lock: a worker inside resize (13..15)
-        //   begin:after-lock, drop:start -> free-list / reader-list mutex: a worker paused inside the
-        //       reader-list critical section (begin:after-header-read, 3)
-        //   begin:after-register -> map-handle mutex: a worker that has just remapped (15)
-        let holders: &[u32] = match *last {
-            1 => &[13, 14, 15],
-            2 | 16 => &[3],
-            4 => &[15],
-            _ => continue,
-        };
+    // a reader blocked on a lock that no other worker's position explains, and that stayed blocked for a
+    // quarter of a second while every other worker was parked at a yield point
+    for (w, last, lasts, ms) in &trace.unexplained {
         if roles[*w] == "reader" {
-            let someone_in_resize = lasts.iter().enumerate().any(|(i, p)| i != *w && holders.contains(p));
-            if !someone_in_resize {
-                viol.push((
-                    "reader-blocked-by-open-writer".into(),
-                    format!("reader worker {} blocked after {} although no other worker was inside the short critical section or the file extension that may hold that lock (last points {:?})", w, sched::point_name(*last), lasts.iter().map(|p| sched::point_name(*p)).collect::<Vec<_>>()),
-                ));
-            }
+            viol.push((
+                "reader-blocked-by-open-writer".into(),
+                format!("reader worker {} blocked after {} for {} ms although no other worker was inside the short critical section or the file extension that may hold that lock (last points {:?})", w, sched::point_name(*last), ms, lasts.iter().map(|p| sched::point_name(*p)).collect::<Vec<_>>()),
+            ));
         }
     }
     // ---- gather events
